@@ -38,6 +38,12 @@ func report(r *chk.Run, class string, in util.CellInput, why string) {
 
 func replay(kind string, input json.RawMessage) (bool, string) {
 	switch kind {
+	case "walk":
+		var w util.WalkInput
+		if err := json.Unmarshal(input, &w); err != nil {
+			return false, err.Error()
+		}
+		return util.ReplayWalk(w.Cells)
 	case "history":
 		return e2.ReplayHistory(kind, input)
 	case "schema":
@@ -130,8 +136,58 @@ func f64(r *chk.Run, bits uint64) {
 	}
 }
 
+// walks: neighbouring numeric values decoded back to back (the same value
+// twice, its successor, its negation / complement), per cell type.
+func walks(r *chk.Run) int64 {
+	var n int64
+	ci := func(c ref.Cell, typ byte, meta uint16, u bool) util.CellInput {
+		return util.CellInput{Type: typ, Meta: meta, Unsigned: u, Raw: c.Raw, Want: c.Text}
+	}
+	for _, ty := range []byte{ref.TTiny, ref.TShort, ref.TInt24, ref.TLong, ref.TLongLong} {
+		bits := map[byte]uint{ref.TTiny: 8, ref.TShort: 16, ref.TInt24: 24, ref.TLong: 32, ref.TLongLong: 64}[ty]
+		var cells []util.CellInput
+		for _, v := range []int64{0, 0, 1, -1, 9, 10, 99, 100, 100, -100, 1<<(bits-1) - 1, -(1 << (bits - 1)), 5, 5} {
+			cells = append(cells, ci(ref.VInt(ty, v, false), ty, 0, false))
+			if v >= 0 {
+				cells = append(cells, ci(ref.VInt(ty, v, true), ty, 0, true))
+			}
+		}
+		n += util.RunWalk(r, "int", fmt.Sprintf("int%d", bits), cells)
+	}
+	var fc, dc []util.CellInput
+	for _, f := range []float32{0, 0, 1.5, 1.5, -1.5, 1.25, 16777216, 1e-10, 3.4e38, 1.5} {
+		fc = append(fc, ci(ref.VFloat(f), ref.TFloat, 4, false))
+	}
+	for _, f := range []float64{0, 0, 1.5, 1.5, -1.5, 1.25, 1e15, 1e-10, 1.7e308, 1.5} {
+		dc = append(dc, ci(ref.VDouble(f), ref.TDouble, 8, false))
+	}
+	n += util.RunWalk(r, "float", "float32", fc)
+	n += util.RunWalk(r, "float", "float64", dc)
+	var yc, ec, sc, bc []util.CellInput
+	for _, y := range []int{0, 0, 1901, 1901, 1902, 2155, 0, 2000} {
+		yc = append(yc, ci(ref.VYear(y), ref.TYear, 0, false))
+	}
+	for _, e := range []uint16{1, 1, 2, 255, 0, 1} {
+		ec = append(ec, ci(ref.VEnum(1, e), ref.TString, uint16(ref.TEnum)<<8|1, false))
+		ec = append(ec, ci(ref.VEnum(2, e<<8|e), ref.TString, uint16(ref.TEnum)<<8|2, false))
+	}
+	for _, m := range []uint64{1, 1, 3, 1 << 63, 0, 1} {
+		sc = append(sc, ci(ref.VSet(8, m), ref.TString, uint16(ref.TSet)<<8|8, false))
+	}
+	for _, w := range []int{1, 8, 8, 9, 16, 64, 64, 1} {
+		c := ref.VBit(w, 0xa5c3f00f9696e187>>uint(64-w))
+		bc = append(bc, ci(c, ref.TBit, uint16(w/8)<<8|uint16(w%8), false))
+	}
+	n += util.RunWalk(r, "year", "year", yc)
+	n += util.RunWalk(r, "enum", "enum", ec)
+	n += util.RunWalk(r, "set", "set", sc)
+	n += util.RunWalk(r, "bit", "bit", bc)
+	return n
+}
+
 func run(r *chk.Run) {
 	var evals, distinct atomic.Int64
+	evals.Add(walks(r))
 	// ---- 8, 16, 24 bit: exhaustive, both signedness modes -----------------
 	r.Parallel(func(shard, n int) {
 		var e int64
